@@ -15,7 +15,7 @@ CFG = {
             "split, maximal batches x re-sent known blocks x archive or pruning cache configs x restarts between batches) and every per-block result "
             "(state root, receipts incl. logs/status/cumulative gas, gas used, full state content) compared with the builder's; every applicable "
             "single-field corruption of the six commitments and of body elements delivered alone / after a valid prefix / before a valid child and "
-            "required to be refused with head, database and state untouched; blocks assembled by worker.commitNewWork and by a by-hand "
+            "required to be refused with head, database and state untouched; blocks assembled by worker.commitNewWork (also from pending sets that make commitTransaction fail mid-block: overspend, gas pool exhausted, stale / gapped nonces, pre-EIP155) and by a by-hand "
             "ApplyTransaction+Finalize builder imported by another node; a known block above the head re-sent with a tampered body; blocks of 129..260 transactions with body corruptions at the RLP-key boundary "
             "indices incl. execution-equivalent replacements; types.DeriveSha vs an independent trie for every list length 0..300 plus single-element "
             "sensitivity; two forks with different code at one address observed through EXTCODESIZE/BALANCE/EXTCODECOPY, delivered A, B, A->B, B->A, with restarts. Model cases: "
